@@ -7,6 +7,7 @@
 #include <cstdlib>
 #include <cstring>
 #include <type_traits>
+#include <utility>
 #include <typeinfo>
 #include <exception>
 #include <string>
@@ -77,7 +78,7 @@ template <class T> struct Exact {
         if (count) memcpy(p, src, count * sizeof(T));
         if (nul) p[count] = 0;
     }
-    template <class S> explicit Exact(const S &s, bool nul = false) : Exact(s.data(), s.size(), nul) {}
+    template <class S, class = decltype(std::declval<const S &>().data())> explicit Exact(const S &s, bool nul = false) : Exact(s.data(), s.size(), nul) {}
     ~Exact() { ::free(p); }
     Exact(const Exact &) = delete; Exact &operator=(const Exact &) = delete;
     const T *data() const { return p; } T *data() { return p; } size_t size() const { return n; }
